@@ -355,8 +355,20 @@ def rule_cover_all(fx, col):
         for bb, t in b.calls(include_cleanup=False):
             if _is_pay(t) and any(bb in bl for h, bl, tl in b.loops()):
                 walkers.append((b, bb, t))
+    # internal iteration: the pay call sits in a closure handed to Iterator::for_each
+    for b in lib.bodies:
+        for bb, t in b.calls(include_cleanup=False):
+            if U.callee_name(t) == 'for_each' and (t['callee'].get('trait_pretty') or '').endswith('iter::Iterator') and len(t['args']) == 2:
+                d = U.def_rvalue(b, t['args'][1])
+                cb = lib.by_key.get(d[3].get('closure')) if d and d[0] == 'rv' and d[3]['k'] == 'aggregate' else None
+                if cb is not None and any(_is_pay(tt) for _, tt in cb.calls(include_cleanup=False)):
+                    _cover_all_for_each(fx, col, cx, b, bb, t, cb)
+                    walkers.append(None)
     col.floor('COVER-ALL', 'pay walks', len(walkers), 1)
-    for (b, pbb, pt) in walkers:
+    for w in walkers:
+        if w is None:
+            continue
+        (b, pbb, pt) = w
         fn = b.fname
         (h, blocks, tails) = [l for l in b.loops() if pbb in l[1]][0]
         nxt = [(bb, t) for bb, t in P._loop_calls(b, blocks) if U.callee_name(t) == 'next' and (t['callee'].get('trait_pretty') or '').endswith('iter::Iterator')]
@@ -405,6 +417,45 @@ def rule_cover_all(fx, col):
         col.add('COVER-ALL', '%s|help before pay' % fn, ok, why)
         _raii_span(fx, col, cx, b, blocks, helps, pbb)
     _traverse_shape(fx, col)
+
+
+def _cover_all_for_each(fx, col, cx, b, fbb, ft, cb):
+    """COVER-ALL for `all_slots.for_each(|slot| ..pay..)`: b = body holding the for_each call, cb = the closure"""
+    fn = b.fname
+    ity = ft['callee'].get('self_ty', '')
+    col.add('COVER-ALL', '%s|iterator type' % fn, P._finite_iter_ty(ity) and 'Chain<' in ity and 'slice::Iter<' in ity and 'Once<' in ity,
+            'the walk consumes %s through for_each (only slice::Iter / Once / Chain admitted)' % ity, b.loc(fbb))
+    thr = lambda t: list(range(len(t['args']))) if U.callee_name(t) in ('chain', 'once', 'into_iter') else None
+    src = b.origins(ft['args'][0], through_calls=thr)
+    names = {U.callee_name(b.term(o[1])) for o in src if o[0] == 'call'}
+    col.add('COVER-ALL', '%s|both accessors' % fn, {'fast_slots', 'helping_slot'} <= names, 'iterator built from %s' % sorted(names))
+    pays = [(bb, t) for bb, t in cb.calls(include_cleanup=False) if _is_pay(t)]
+    pbb, pt = pays[0]
+    col.add('COVER-ALL', '%s|pays the yielded slot' % fn, len(pays) == 1 and cb.origins(pt['args'][0]) == {('arg', 2)}, 'pay() is invoked on the item handed to the closure')
+    col.add('COVER-ALL', '%s|every item paid' % fn, not U.dominating_branches(cb, pbb, unwind=False) and not any(pbb in bl for h, bl, tl in cb.loops()),
+            'the pay call in the closure is unconditional', cb.loc(pbb))
+    rets = []
+    for bb in range(b.n):
+        if b.is_cleanup(bb):
+            continue
+        for st in b.stmts(bb):
+            if st['k'] == 'assign' and st['dest']['local'] == 0 and not st['dest']['proj']:
+                rv = st['rv']
+                rets.append(rv['k'] == 'aggregate' and rv.get('adt') == 'core::option::Option' and rv['variant'] == 'None')
+    if b.local_ty(0).startswith('std::option::Option'):
+        col.add('COVER-ALL', '%s|never stops early' % fn, bool(rets) and all(rets), 'the per-node closure returns None on every path')
+    helps = [(bb, t, cb2) for bb, t, cb2 in cx.local_calls(b) if not b.is_cleanup(bb) and
+             cx.summ.has_site(cb2.key, lambda s: s.cls == 'control' and s.op.startswith('compare_exchange'))]
+    ok = len(helps) == 1
+    why = '%d helper call(s)' % len(helps)
+    if ok:
+        hbb = helps[0][0]
+        dom = b.dominates(hbb, fbb) and hbb != fbb
+        uncond = not U.dominating_branches(b, hbb, unwind=False)
+        ok = dom and uncond
+        why = 'help() at %s dominates the slot walk: %s; unconditional: %s' % (b.loc(hbb), dom, uncond)
+    col.add('COVER-ALL', '%s|help before pay' % fn, ok, why)
+    _raii_span(fx, col, cx, b, set(), helps, fbb)
 
 
 def _walk_node_operand(b, src):
